@@ -743,7 +743,7 @@ def serial_one(ctx: Ctx):
                  '' if cl else 'SerialRunner.cancel leaves queued submissions: tasks start after an interrupt', construct='serial-cancel')
 
 
-@rule('C03.LOAD-XOR-EXEC', ['C03', 'C06', 'C01', 'C08', 'C10', 'C02'])
+@rule('C03.LOAD-XOR-EXEC', ['C03', 'C06', 'C01', 'C08', 'C10', 'C02', 'C16'])
 def load_xor_exec(ctx: Ctx):
     """run_or_load_task: with use_cache one load and no run/save; otherwise exactly one run() followed
     by exactly one save(storage, task, <the returned TaskResult>) on every normal path."""
